@@ -84,6 +84,11 @@ def run(ctx):
             (dict(hosts=["10.0.0.1", "10.0.0.2"], rounds=6, prelude=["ok|10.0.0.1|ok", "drop"], **small), 1),
             (dict(hosts=["10.0.0.1"], rounds=5, prelude=["ok|10.0.0.1|auth-error"], **small), 2),
             (dict(hosts=["10.0.0.1"], rounds=6, prelude=["refuse", "timer", "refuse", "timer", "refuse", "close", "zc-same"], **small), 1),
+            # long horizon on defaults only: the accessory stays unreachable for 2100 consecutive rounds (about 35 h of back-off at the 60 s cap)
+            (dict(hosts=["10.0.0.1"], rounds=2100, max_time=1e9, triggers=[]), 0),
+            # one of two addresses already excluded (wrong pairing id), then address sets that overlap the old one in either member
+            (dict(hosts=["10.0.0.1", "10.0.0.2"], rounds=6, prelude=["ok|10.0.0.2|wrong-id"], behaviours=["ok", "wrong-id"], triggers=["zc-same", "zc-changed", "zc-changed-last", "drop"]), 2),
+            (dict(hosts=["10.0.0.1", "10.0.0.2"], rounds=6, prelude=["ok|10.0.0.1|wrong-id"], behaviours=["ok", "wrong-id"], triggers=["zc-same", "zc-changed", "zc-changed-last", "drop"]), 2),
         ]
     else:
         configs = [
@@ -96,6 +101,10 @@ def run(ctx):
             (dict(hosts=["10.0.0.1"], rounds=6, prelude=["ok|10.0.0.1|auth-error"]), 2),
             (dict(hosts=["10.0.0.1"], rounds=8, prelude=["refuse", "timer", "refuse", "timer", "refuse", "close", "zc-same"]), 2),
             (dict(hosts=["10.0.0.1", "10.0.0.2", "fd00::1"], rounds=8, prelude=["ok|10.0.0.1|wrong-id", "ok|10.0.0.2|wrong-id"], **small), 2),
+            (dict(hosts=["10.0.0.1"], rounds=5000, max_time=1e9, triggers=[]), 0),
+            (dict(hosts=["10.0.0.1", "10.0.0.2"], rounds=2100, max_time=1e9, triggers=[]), 0),
+            (dict(hosts=["10.0.0.1", "10.0.0.2"], rounds=8, prelude=["ok|10.0.0.2|wrong-id"], behaviours=["ok", "wrong-id", "close-m1"], triggers=["zc-same", "zc-changed", "zc-changed-last", "drop", "ensure", "close"]), 3),
+            (dict(hosts=["10.0.0.1", "10.0.0.2", "fd00::1"], rounds=7, prelude=["ok|10.0.0.2|wrong-id"], behaviours=["ok", "wrong-id"], triggers=["zc-same", "zc-changed", "zc-changed-last", "drop"]), 2),
         ]
     work = plan(ctx, configs)
     ctx.bounds.update(configs=[dict(hosts=c["hosts"], rounds=c["rounds"], deviations=d) for c, d in configs])
